@@ -33,6 +33,7 @@ type Frame struct {
 	names  map[string][]ssa.Value
 	order  []*ssa.BasicBlock
 	tags   []string
+	alias  map[string]string // contract-recorded local name -> current name (locals.go)
 }
 
 type retPoint struct {
